@@ -566,6 +566,7 @@ type vObs struct {
 	stopReal   int64 // instant Shutdown was called (-1 never)
 	cancelReal int64
 	unstable   bool
+	base       error // the base error of this request's exporter errors (nil = vBaseErr)
 }
 
 func vIDsOf(req Request) []int64 {
@@ -650,14 +651,14 @@ func vRequest(sig int, ids []int64) Request {
 
 var vBaseErr = errors.New("backend unavailable")
 
-func vBuildErr(e *vErr) error {
+func vBuildErr(e *vErr, base error) error {
 	switch e.code {
 	case 6:
-		return vBaseErr
+		return base
 	case 5:
 		kids := make([]error, len(e.kids))
 		for i, k := range e.kids {
-			kids[i] = vBuildErr(k)
+			kids[i] = vBuildErr(k, base)
 		}
 		switch e.jk {
 		case 1:
@@ -671,7 +672,7 @@ func vBuildErr(e *vErr) error {
 		}
 		return errors.Join(kids...)
 	}
-	in := vBuildErr(e.sub)
+	in := vBuildErr(e.sub, base)
 	switch e.code {
 	case 0:
 		return consumererror.NewPermanent(in)
@@ -782,7 +783,7 @@ func vRunOnce(sc *vScenario, id *vIdeal) (*vObs, error) {
 				c.ok = true
 			} else {
 				c.e = a.tree
-				err = vBuildErr(a.tree)
+				err = vBuildErr(a.tree, vBaseErr)
 			}
 		case <-ctx.Done():
 			tm.Stop()
@@ -1002,7 +1003,11 @@ func vOracle(out *vOut, term string, sc *vScenario, obs *vObs) {
 	case !lastc.ok && obs.err == nil:
 		fail("success-without-delivery", "Send returned nil although the last attempt failed")
 	}
-	if obs.err != nil && lastc.ret != nil && !errors.Is(obs.err, lastc.ret) && !errors.Is(obs.err, vBaseErr) {
+	base := obs.base
+	if base == nil {
+		base = vBaseErr
+	}
+	if obs.err != nil && lastc.ret != nil && !errors.Is(obs.err, lastc.ret) && !errors.Is(obs.err, base) {
 		fail("final-error-does-not-wrap-last", obs.err.Error())
 	}
 	// classification of the returned error: errors.As semantics over the whole tree of the last exporter error
@@ -1132,6 +1137,368 @@ func vEventInstants(sc *vScenario, obs *vObs) (cancelAt, stopAt int64) {
 	return
 }
 
+// ---- family 4: several requests through ONE exporter (the same retrySender) --------------------------------------
+// Every Send is an independent run of the model (fresh back-off state; the stop channel is the only thing shared
+// and it stays closed for every request, current and future).  Each request of a group is emitted as its own case.
+//   mode 0: the requests are sent one after another      (state left behind by an earlier request)
+//   mode 1: the requests are sent concurrently           (state shared between concurrent requests)
+//   mode 2: concurrently, and Shutdown is called while role-0 requests wait in their first back-off and role-1
+//           requests have their first attempt in progress; role-2 requests are sent after Shutdown returned;
+//           role-3 requests succeeded before.  Every request that fails (non-permanently) from then on must end
+//           with the shutdown-classified error and must not be attempted again.
+type vGroup struct {
+	mode  int
+	reqs  []*vScenario
+	roles []int
+}
+
+type vReqKey struct{}
+
+func vGenFailures(r *vRand, sc *vScenario, n int, dur0 int64, first int) {
+	cur := sc.payload
+	thr := []int64{5, 12, 30}
+	for i := 0; i < n; i++ {
+		a := vAttempt{dur: int64(1+r.Intn(3)) * vMs}
+		if i == 0 {
+			a.dur = dur0
+		}
+		switch {
+		case i == 0 && first == 1:
+			a.ok = true
+		case i == 0 && first == 2:
+			a.layers = []vLayer{{code: 4}, {code: 0}}
+		default:
+			switch r.Intn(5) {
+			case 1:
+				a.layers = []vLayer{{code: 4}}
+			case 2:
+				a.layers = []vLayer{{code: 2, sig: sc.sig, rem: vSubset(r, cur)}}
+			case 3:
+				a.layers = []vLayer{{code: 1, d: vPickMs(r, thr...)}}
+			}
+		}
+		if !a.ok {
+			a.tree = vCombine(r, sc, a.layers, cur, thr, !(i == 0 && first == 2))
+			if rem, has := vPartial(sc.sig, a.tree); has {
+				cur = rem
+			}
+		}
+		sc.script = append(sc.script, a)
+	}
+	for i := 0; i < 2; i++ {
+		sc.script = append(sc.script, vAttempt{dur: 1 * vMs, ok: true})
+	}
+}
+
+// vWorstTotal bounds the duration of a request's run from above (largest delays of the envelope)
+func vWorstTotal(sc *vScenario) int64 {
+	t := int64(0)
+	for k, a := range sc.script {
+		t += a.dur + 5*vMs
+		if a.ok || vIsPerm(a.tree) {
+			break
+		}
+		_, hi := vEnvelope(sc, k)
+		d := int64(hi)
+		if th, has := vThrottle(a.tree); has {
+			d = max(d, th)
+		}
+		t += d
+	}
+	return t
+}
+
+func vGenGroup(r *vRand, mode int) *vGroup {
+	g := &vGroup{mode: mode}
+	tmpl := vScenario{family: 4, enabled: true, deadline: -1, cancel: -1, stop: -1, evStop: -1, evCancel: -1}
+	rf := [][2]int64{{0, 1}, {0, 1}, {1, 4}, {1, 2}}[r.Intn(4)]
+	mu := [][2]int64{{2, 1}, {3, 2}, {3, 1}, {2, 1}}[r.Intn(4)]
+	tmpl.mN, tmpl.mD = mu[0], mu[1]
+	if mode == 2 {
+		tmpl.init, tmpl.maxint = vPickMs(r, 90, 120), 400*vMs
+		rf = [][2]int64{{0, 1}, {1, 4}}[r.Intn(2)]
+	} else {
+		tmpl.init, tmpl.maxint = vPickMs(r, 8, 12, 16), vPickMs(r, 48, 200)
+	}
+	tmpl.rfN, tmpl.rfD = rf[0], rf[1]
+	add := func(role, nfail int, dur0 int64, first int) {
+		sc := tmpl
+		sc.sig = r.Intn(3)
+		sc.payload = vGenPayload(r)
+		vGenFailures(r, &sc, nfail, dur0, first)
+		g.reqs = append(g.reqs, &sc)
+		g.roles = append(g.roles, role)
+	}
+	if mode != 2 {
+		budget := mode == 0 && r.Bool()
+		add(0, 2+r.Intn(3), 2*vMs, 0) // the first request escalates the interval
+		for i, n := 0, 1+r.Intn(3); i < n || (budget && i < 5); i++ {
+			if budget {
+				add(0, 2+r.Intn(2), 2*vMs, 0)
+			} else {
+				add(0, 1+r.Intn(3), 2*vMs, 0)
+			}
+		}
+		// an elapsed budget that every request meets comfortably when it is counted from ITS OWN Send
+		// (but that a later request of the group would miss if it were counted from anything earlier)
+		worst := int64(0)
+		for _, sc := range g.reqs {
+			worst = max(worst, vWorstTotal(sc))
+		}
+		if budget {
+			for _, sc := range g.reqs {
+				sc.maxel = worst + 2*vMargin
+			}
+		}
+		return g
+	}
+	for i, n := 0, 2+r.Intn(2); i < n; i++ { // at least two requests waiting in back-off
+		add(0, 1+r.Intn(2), int64(1+r.Intn(3))*vMs, 0)
+	}
+	for i, n := 0, r.Intn(3); i < n; i++ {
+		switch role := 1 + r.Intn(3); role {
+		case 1:
+			add(1, 1+r.Intn(2), 90*vMs, r.Pick(7, 2, 1))
+		case 2:
+			add(2, 1+r.Intn(2), 2*vMs, r.Pick(7, 2, 1))
+		default:
+			add(3, 1, 2*vMs, 1)
+		}
+	}
+	return g
+}
+
+func vRunGroup(g *vGroup) (all []*vObs, stopAt []int64, unstable bool, rerr error) {
+	n := len(g.reqs)
+	core, logs := observer.New(zap.InfoLevel)
+	set := exportertest.NewNopSettings(exportertest.NopType)
+	set.Logger = zap.New(core)
+	all, stopAt = make([]*vObs, n), make([]int64, n)
+	t0 := make([]time.Time, n)
+	var stopDone atomic.Bool
+	var waiters, running sync.WaitGroup
+	for i := range g.reqs {
+		all[i] = &vObs{stopReal: -1, cancelReal: -1, base: fmt.Errorf("backend unavailable #r%d#", i)}
+		stopAt[i] = -1
+		if g.mode == 2 && g.roles[i] == 0 {
+			waiters.Add(1)
+		}
+		if g.mode == 2 && g.roles[i] == 1 {
+			running.Add(1)
+		}
+	}
+	pusher := func(ctx context.Context, req Request) error {
+		i, _ := ctx.Value(vReqKey{}).(int)
+		sc, obs := g.reqs[i], all[i]
+		k := len(obs.calls)
+		c := vCall{start: int64(time.Since(t0[i])), payload: vIDsOf(req), dlSeen: -1, afterStop: stopDone.Load()}
+		if _, has := ctx.Deadline(); has {
+			c.dlClass = 2
+		}
+		if g.mode == 2 && g.roles[i] == 1 && k == 0 {
+			running.Done()
+		}
+		var err error
+		if k >= len(sc.script) {
+			c.end, c.ok = c.start, true
+		} else {
+			a := sc.script[k]
+			time.Sleep(time.Duration(a.dur))
+			c.lateWake = int64(time.Since(t0[i])) - (c.start + a.dur)
+			if a.ok {
+				c.ok = true
+			} else {
+				c.e = a.tree
+				err = vBuildErr(a.tree, obs.base)
+			}
+			c.end = int64(time.Since(t0[i]))
+		}
+		c.ret = err
+		obs.calls = append(obs.calls, c)
+		if g.mode == 2 && g.roles[i] == 0 && k == 0 {
+			waiters.Done()
+		}
+		return err
+	}
+	tmpl := g.reqs[0]
+	cfg := configretry.BackOffConfig{Enabled: true, InitialInterval: time.Duration(tmpl.init),
+		RandomizationFactor: float64(tmpl.rfN) / float64(tmpl.rfD), Multiplier: float64(tmpl.mN) / float64(tmpl.mD),
+		MaxInterval: time.Duration(tmpl.maxint), MaxElapsedTime: time.Duration(tmpl.maxel)}
+	// one exporter for all signals: the signal only selects the obsreport counters
+	be, err := internal.NewBaseExporter(set, pipeline.SignalLogs, pusher, internal.WithRetry(cfg),
+		internal.WithTimeout(internal.TimeoutConfig{}))
+	if err != nil {
+		return nil, nil, false, err
+	}
+	send := func(i int) {
+		sc := g.reqs[i]
+		req := vRequest(sc.sig, sc.payload)
+		t0[i] = time.Now()
+		all[i].err = be.Send(context.WithValue(context.Background(), vReqKey{}, i), req)
+		all[i].ret = int64(time.Since(t0[i]))
+	}
+	var wg sync.WaitGroup
+	goSend := func(i int) {
+		wg.Add(1)
+		go func() { defer wg.Done(); send(i) }()
+	}
+	var shutAbs time.Time
+	finished := make(chan struct{})
+	go func() {
+		defer close(finished)
+		switch g.mode {
+		case 0:
+			for i := range g.reqs {
+				send(i)
+			}
+		case 1:
+			for i := range g.reqs {
+				goSend(i)
+			}
+		default:
+			for i, role := range g.roles {
+				if role == 3 {
+					send(i)
+				}
+			}
+			for i, role := range g.roles {
+				if role == 0 || role == 1 {
+					goSend(i)
+				}
+			}
+			waiters.Wait()
+			running.Wait()
+			time.Sleep(8 * time.Millisecond) // let the waiters reach their select
+			shutAbs = time.Now()
+			_ = be.Shutdown(context.Background())
+			stopDone.Store(true)
+			for i, role := range g.roles {
+				if role == 2 {
+					goSend(i)
+				}
+			}
+		}
+		wg.Wait()
+	}()
+	select {
+	case <-finished:
+	case <-time.After(30 * time.Second):
+		return nil, nil, false, errors.New("a group of Sends did not return within 30 s")
+	}
+	if g.mode != 2 {
+		_ = be.Shutdown(context.Background())
+	}
+	// the logged delays, attributed to their request by the marker in the logged error text
+	for _, e := range logs.FilterMessage(vRetryMsg).All() {
+		cm := e.ContextMap()
+		es, _ := cm["error"].(string)
+		is, _ := cm["interval"].(string)
+		d, perr := time.ParseDuration(is)
+		idx := -1
+		for i := range g.reqs {
+			if strings.Contains(es, fmt.Sprintf("#r%d#", i)) {
+				idx = i
+			}
+		}
+		if perr != nil || idx < 0 {
+			return nil, nil, false, fmt.Errorf("cannot attribute the log entry interval=%q error=%q", is, es)
+		}
+		all[idx].delays = append(all[idx].delays, int64(d))
+	}
+	for i, obs := range all {
+		obs.verdict = vClassify(obs.err)
+		obs.isShutdown = experr.IsShutdownErr(obs.err)
+		obs.isPerm = consumererror.IsPermanent(obs.err)
+		for k, c := range obs.calls {
+			if c.lateWake > vJitter {
+				unstable = true
+			}
+			if k+1 < len(obs.calls) && k < len(obs.delays) && obs.calls[k+1].start-c.end-obs.delays[k] > vJitter {
+				unstable = true
+			}
+		}
+		if g.mode != 2 || g.roles[i] == 3 || len(obs.calls) == 0 {
+			continue
+		}
+		sd := int64(shutAbs.Sub(t0[i]))
+		obs.stopReal = max(sd, 0)
+		c0 := obs.calls[0]
+		switch g.roles[i] {
+		case 0: // must have been inside its first wait, well before the timer
+			stopAt[i] = c0.end + vMs
+			if len(obs.delays) > 0 {
+				stopAt[i] = g.reqs[i].script[0].dur + obs.delays[0]/4
+				if sd+15*vMs > c0.end+obs.delays[0] {
+					unstable = true
+				}
+			}
+			if sd <= c0.end {
+				unstable = true
+			}
+		case 1: // its first attempt must still have been running
+			stopAt[i] = g.reqs[i].script[0].dur / 2
+			if sd+5*vMs > c0.end || sd <= c0.start {
+				unstable = true
+			}
+		case 2:
+			stopAt[i] = 0
+		}
+	}
+	return all, stopAt, unstable, nil
+}
+
+type vGJob struct {
+	g        *vGroup
+	obs      []*vObs
+	stopAt   []int64
+	unstable bool
+	err      error
+	rer      int
+}
+
+// vEmit writes the case of one request, runs the direct oracle on it and updates the histograms.
+func vEmit(out *vOut, sc *vScenario, obs *vObs, cancelAt, stopAt int64) {
+	term := vCaseTerm(sc, obs, cancelAt, stopAt)
+	out.Case(len(obs.calls) > 1 || obs.verdict != 0, term)
+	vOracle(out, term, sc, obs)
+	out.Stat(fmt.Sprintf("family_%d", sc.family), 1)
+	out.Stat(fmt.Sprintf("verdict_%d", obs.verdict), 1)
+	out.Stat(fmt.Sprintf("attempts_%d", min(len(obs.calls), 6)), 1)
+	out.Stat("waits", len(obs.delays))
+	for _, c := range obs.calls {
+		switch {
+		case c.ok:
+			out.Stat("outcome_ok", 1)
+		case c.ctxErr:
+			out.Stat("outcome_ctx_expired", 1)
+		default:
+			if c.e.code == 6 {
+				out.Stat("outcome_plain_transient", 1)
+			}
+			vWalk(c.e, func(x *vErr, depth int) {
+				switch {
+				case x.code == 5:
+					out.Stat(fmt.Sprintf("outcome_combination_kind_%d", x.jk), 1)
+				case x.code < 5 && depth == 0:
+					out.Stat(fmt.Sprintf("outcome_layer_%d", x.code), 1)
+				case x.code < 5:
+					out.Stat(fmt.Sprintf("outcome_layer_%d_inside_combination", x.code), 1)
+				}
+			}, 0)
+		}
+		out.Stat(fmt.Sprintf("deadline_class_%d", c.dlClass), 1)
+	}
+	if !sc.enabled {
+		out.Stat("retry_disabled", 1)
+	}
+	if obs.stopReal >= 0 {
+		out.Stat("with_shutdown", 1)
+	}
+	if obs.cancelReal >= 0 {
+		out.Stat("with_cancel", 1)
+	}
+}
+
 // ---- the test --------------------------------------------------------------------------------------------------
 type vJob struct {
 	sc  *vScenario
@@ -1158,6 +1525,10 @@ func TestVerifC05(t *testing.T) {
 	for i := 0; i < nF3; i++ {
 		jobs = append(jobs, &vJob{sc: vGenF3(rng)})
 	}
+	var gjobs []*vGJob
+	for i, nG := 0, vBudget(90, 8); i < nG; i++ {
+		gjobs = append(gjobs, &vGJob{g: vGenGroup(rng, []int{0, 1, 2, 2}[i%4])})
+	}
 	// run 16-wide; results are emitted in generation order
 	var wg sync.WaitGroup
 	ch := make(chan *vJob)
@@ -1176,10 +1547,30 @@ func TestVerifC05(t *testing.T) {
 			}
 		}()
 	}
+	gch := make(chan *vGJob)
+	for w := 0; w < 8; w++ {
+		wg.Add(1)
+		go func() {
+			defer wg.Done()
+			for j := range gch {
+				for try := 0; try < vRetries; try++ {
+					j.obs, j.stopAt, j.unstable, j.err = vRunGroup(j.g)
+					if j.err != nil || !j.unstable {
+						break
+					}
+					j.rer++
+				}
+			}
+		}()
+	}
 	for _, j := range jobs {
 		ch <- j
 	}
 	close(ch)
+	for _, j := range gjobs {
+		gch <- j
+	}
+	close(gch)
 	wg.Wait()
 
 	skipped := 0
@@ -1199,44 +1590,25 @@ func TestVerifC05(t *testing.T) {
 		if sc.family != 1 {
 			cancelAt, stopAt = vEventInstants(sc, obs)
 		}
-		term := vCaseTerm(sc, obs, cancelAt, stopAt)
-		out.Case(len(obs.calls) > 1 || obs.verdict != 0, term)
-		vOracle(out, term, sc, obs)
-		out.Stat(fmt.Sprintf("family_%d", sc.family), 1)
-		out.Stat(fmt.Sprintf("verdict_%d", obs.verdict), 1)
-		out.Stat(fmt.Sprintf("attempts_%d", min(len(obs.calls), 6)), 1)
-		out.Stat("waits", len(obs.delays))
-		for _, c := range obs.calls {
-			switch {
-			case c.ok:
-				out.Stat("outcome_ok", 1)
-			case c.ctxErr:
-				out.Stat("outcome_ctx_expired", 1)
-			default:
-				if c.e.code == 6 {
-					out.Stat("outcome_plain_transient", 1)
-				}
-				vWalk(c.e, func(x *vErr, depth int) {
-					switch {
-					case x.code == 5:
-						out.Stat(fmt.Sprintf("outcome_combination_kind_%d", x.jk), 1)
-					case x.code < 5 && depth == 0:
-						out.Stat(fmt.Sprintf("outcome_layer_%d", x.code), 1)
-					case x.code < 5:
-						out.Stat(fmt.Sprintf("outcome_layer_%d_inside_combination", x.code), 1)
-					}
-				}, 0)
+		vEmit(out, sc, obs, cancelAt, stopAt)
+	}
+	// family 4: several requests through ONE exporter (one retrySender)
+	for _, j := range gjobs {
+		if j.err != nil {
+			out.Oracle("harness-run-failed", "([], ([], ([], ([], ([], [])))))", j.err.Error())
+			continue
+		}
+		out.Stat("reruns_for_timer_jitter", j.rer)
+		if j.unstable {
+			out.Stat("timing_skipped_groups", 1)
+			continue
+		}
+		out.Stat(fmt.Sprintf("group_mode_%d", j.g.mode), 1)
+		for i, sc := range j.g.reqs {
+			vEmit(out, sc, j.obs[i], -1, j.stopAt[i])
+			if j.g.mode == 2 {
+				out.Stat(fmt.Sprintf("group_role_%d", j.g.roles[i]), 1)
 			}
-			out.Stat(fmt.Sprintf("deadline_class_%d", c.dlClass), 1)
-		}
-		if !sc.enabled {
-			out.Stat("retry_disabled", 1)
-		}
-		if obs.stopReal >= 0 {
-			out.Stat("with_shutdown", 1)
-		}
-		if obs.cancelReal >= 0 {
-			out.Stat("with_cancel", 1)
 		}
 	}
 	out.Stat("margin_ms", int(vMargin/vMs))
